@@ -106,6 +106,12 @@ def cases(draw):
                                                           "   ", "other.name-x = some text"]), max_size=4)) for _ in range(n)]}
     np_ = draw(st.integers(1, 4))
     c["params"] = [draw(_param(i, n)) for i in range(np_)]
+    # some parameters are named after the first one plus a suffix, so that one full name is a proper prefix of another
+    # (real pairs exist: runtime_comm_thread_yield / runtime_comm_thread_yield_duration); names stay distinct
+    for i in range(1, np_):
+        if draw(st.integers(0, 2)) == 0:
+            c["params"][i]["tname"] = c["params"][0]["tname"]
+            c["params"][i]["pname"] = "%s_x%d" % (c["params"][0]["pname"], i)
     c["order"] = draw(st.permutations(list(range(sum(len(p["cmdline"]) for p in c["params"])))))
     return c
 
